@@ -21,7 +21,14 @@ import (
 	"github.com/feichai0017/NoKV/wal"
 )
 
-const regionID = 1
+// A cluster has 3 stores and 1 or 2 regions; every store hosts a peer of every
+// region. Peer id = (region-1)*10 + store id. With two regions, region 1 owns
+// the keys k0,k1 and region 2 the keys k2,k3; all regions of a store share the
+// store's commandPipeline and state machine, as in production.
+
+func peerID(region, storeID uint64) uint64 { return (region-1)*10 + storeID }
+func storeOfPeer(id uint64) uint64         { return id % 10 }
+func regionOfPeer(id uint64) uint64        { return id/10 + 1 }
 
 // event is one observed event (Spec/ClusterSpec.v: oev). Events whose details
 // are learned a little later (the id a proposal was registered under, the
@@ -30,10 +37,11 @@ const regionID = 1
 type event struct {
 	kind   string // start propose read apply serve exec ret
 	s, w   uint64
+	region uint64
 	cmd    cmdSpec
 	leader bool
 	term   uint64
-	pobs   string // PoNotLeader | (PoRegistered id) | PoStarted | PoOther
+	pobs   string // PoNotLeader | (PoRegistered id) | PoStarted | PoDropped | PoOther
 	index  uint64
 	eterm  uint64
 	reqid  uint64
@@ -55,13 +63,13 @@ func (e *event) coq() string {
 	case "start":
 		return fmt.Sprintf("OStart %d", e.s)
 	case "propose":
-		return fmt.Sprintf("OPropose %d %d %s %v %d %s", e.s, e.w, e.cmd.coq(), e.leader, e.term, e.pobs)
+		return fmt.Sprintf("OPropose %d %d %d %s %v %d %s", e.s, e.region, e.w, e.cmd.coq(), e.leader, e.term, e.pobs)
 	case "read":
-		return fmt.Sprintf("ORead %d %d %s %v %d %s", e.s, e.w, e.cmd.coq(), e.leader, e.term, e.pobs)
+		return fmt.Sprintf("ORead %d %d %d %s %v %d %s", e.s, e.region, e.w, e.cmd.coq(), e.leader, e.term, e.pobs)
 	case "apply":
-		return fmt.Sprintf("OApply %d %d %d %d %s %s", e.s, e.index, e.eterm, e.reqid, e.cmd.coq(), optAns(e.ans))
+		return fmt.Sprintf("OApply %d %d %d %d %d %s %s", e.s, e.region, e.index, e.eterm, e.reqid, e.cmd.coq(), optAns(e.ans))
 	case "serve":
-		return fmt.Sprintf("OServe %d %d %d %d", e.s, e.w, e.ridx, e.mark)
+		return fmt.Sprintf("OServe %d %d %d %d %d", e.s, e.region, e.w, e.ridx, e.mark)
 	case "exec":
 		return fmt.Sprintf("OExec %d %d %s", e.s, e.w, optAns(e.ans))
 	case "ret":
@@ -71,13 +79,12 @@ func (e *event) coq() string {
 }
 
 type node struct {
-	c    *cluster
-	id   uint64
-	st   *store.Store
-	peer *peer.Peer
-	sm   *regSM // survives restarts, like the DB behind the real applier
-	up   bool
-	inc  *incarn
+	c   *cluster
+	id  uint64
+	st  *store.Store
+	sm  *regSM // survives restarts, like the DB behind the real applier
+	up  bool
+	inc *incarn
 }
 
 // incarn is one process lifetime of a store. A restart stands for a process
@@ -88,10 +95,12 @@ type incarn struct {
 	dead     bool                        // guarded by cluster.mu
 	reads    map[*pb.RaftCmdRequest]bool // requests announced by the read observer
 	lastAppl *event
-	peer     *peer.Peer
+	peers    map[uint64]*peer.Peer // region -> peer
 	wal      *wal.Manager
 	man      *manifest.Manager
 }
+
+func (n *node) peer(region uint64) *peer.Peer { return n.inc.peers[region] }
 
 type opState struct {
 	done chan struct{}
@@ -105,11 +114,11 @@ type cluster struct {
 	queue         []myraft.Message
 	cut           [4]bool
 	nodes         [4]*node
+	regions       []uint64
 	dir           string
 	nextW         uint64
 	ops           []*opState
 	stats         map[string]int
-	terms         map[uint64]uint64 // term -> store seen as leader
 	readsInFlight atomic.Int32
 }
 
@@ -131,8 +140,11 @@ func (n netT) Send(m myraft.Message) {
 
 var quietLogger = &myraft.DefaultLogger{Logger: log.New(io.Discard, "", 0)}
 
-func newCluster(dir string) (*cluster, error) {
-	c := &cluster{dir: dir, stats: map[string]int{}, terms: map[uint64]uint64{}}
+func newCluster(dir string, nregions int) (*cluster, error) {
+	c := &cluster{dir: dir, stats: map[string]int{}}
+	for r := 1; r <= nregions; r++ {
+		c.regions = append(c.regions, uint64(r))
+	}
 	for id := uint64(1); id <= 3; id++ {
 		n := &node{c: c, id: id, sm: newRegSM()}
 		c.nodes[id] = n
@@ -143,20 +155,32 @@ func newCluster(dir string) (*cluster, error) {
 	return c, nil
 }
 
+func (c *cluster) regionMeta(region uint64) manifest.RegionMeta {
+	m := manifest.RegionMeta{
+		ID:    region,
+		Epoch: manifest.RegionEpoch{Version: 1, ConfVersion: 1},
+		Peers: []manifest.PeerMeta{{StoreID: 1, PeerID: peerID(region, 1)}, {StoreID: 2, PeerID: peerID(region, 2)},
+			{StoreID: 3, PeerID: peerID(region, 3)}},
+	}
+	if len(c.regions) > 1 {
+		if region == 1 {
+			m.EndKey = []byte("k2")
+		} else {
+			m.StartKey = []byte("k2")
+		}
+	}
+	return m
+}
+
 func (n *node) start() error {
 	c := n.c
-	in := &incarn{n: n, reads: map[*pb.RaftCmdRequest]bool{}}
+	in := &incarn{n: n, reads: map[*pb.RaftCmdRequest]bool{}, peers: map[uint64]*peer.Peer{}}
 	n.inc = in
 	n.st = store.NewStoreWithConfig(store.Config{StoreID: n.id, CommandApplier: in.apply, CommandTimeout: 60 * time.Second})
-	n.st.VerifObserve(in.onApply, func(ev store.VerifReadEvent) { in.onRead(ev, n.peerOf(in)) })
-	region := manifest.RegionMeta{
-		ID:    regionID,
-		Epoch: manifest.RegionEpoch{Version: 1, ConfVersion: 1},
-		Peers: []manifest.PeerMeta{{StoreID: 1, PeerID: 1}, {StoreID: 2, PeerID: 2}, {StoreID: 3, PeerID: 3}},
-	}
-	// The raft log lives where production keeps it: a WAL-backed storage
-	// (engine.WALStorage) over a wal.Manager and a manifest in the store's
-	// directory, reopened on restart.
+	n.st.VerifObserve(in.onApply, in.onRead)
+	// The raft logs live where production keeps them: WAL-backed storage
+	// (engine.WALStorage) over one wal.Manager and one manifest in the store's
+	// directory, shared by the regions and reopened on restart.
 	sdir := filepath.Join(c.dir, fmt.Sprintf("s%d", n.id))
 	w, err := wal.Open(wal.Config{Dir: filepath.Join(sdir, "wal")})
 	if err != nil {
@@ -167,21 +191,25 @@ func (n *node) start() error {
 		return err
 	}
 	in.wal, in.man = w, m
-	cfg := &peer.Config{
-		RaftConfig: myraft.Config{ID: n.id, ElectionTick: 10, HeartbeatTick: 1, MaxSizePerMsg: 1 << 20,
-			MaxInflightMsgs: 256, PreVote: true, Logger: quietLogger},
-		Transport: netT{c},
-		WAL:       w,
-		Manifest:  m,
-		GroupID:   regionID,
-		Region:    &region,
+	for _, region := range c.regions {
+		meta := c.regionMeta(region)
+		cfg := &peer.Config{
+			RaftConfig: myraft.Config{ID: peerID(region, n.id), ElectionTick: 10, HeartbeatTick: 1, MaxSizePerMsg: 1 << 20,
+				MaxInflightMsgs: 256, PreVote: true, Logger: quietLogger},
+			Transport: netT{c},
+			WAL:       w,
+			Manifest:  m,
+			GroupID:   region,
+			Region:    &meta,
+		}
+		p, err := n.st.StartPeer(cfg, []myraft.Peer{{ID: peerID(region, 1)}, {ID: peerID(region, 2)}, {ID: peerID(region, 3)}})
+		if err != nil {
+			return err
+		}
+		c.mu.Lock()
+		in.peers[region] = p
+		c.mu.Unlock()
 	}
-	p, err := n.st.StartPeer(cfg, []myraft.Peer{{ID: 1}, {ID: 2}, {ID: 3}})
-	if err != nil {
-		return err
-	}
-	n.peer = p
-	in.peer = p
 	n.up = true
 	return nil
 }
@@ -214,7 +242,7 @@ func (in *incarn) apply(req *pb.RaftCmdRequest) (*pb.RaftCmdResponse, error) {
 		}
 		c.log(ev)
 	} else {
-		ev := &event{kind: "apply", s: n.id, cmd: spec}
+		ev := &event{kind: "apply", s: n.id, region: req.GetHeader().GetRegionId(), cmd: spec}
 		if err == nil {
 			ev.ans = &a
 		}
@@ -232,23 +260,26 @@ func (in *incarn) onApply(ev store.VerifApplyEvent) {
 	c.mu.Lock()
 	defer c.mu.Unlock()
 	if e := in.lastAppl; e != nil {
-		e.index, e.eterm, e.reqid = ev.Index, ev.Term, ev.RequestID
+		e.index, e.eterm, e.reqid, e.region = ev.Index, ev.Term, ev.RequestID, ev.RegionID
 		in.lastAppl = nil
 	}
 }
 
-func (in *incarn) onRead(ev store.VerifReadEvent, p *peer.Peer) {
+func (in *incarn) onRead(ev store.VerifReadEvent) {
+	region := ev.Req.GetHeader().GetRegionId()
+	c := in.n.c
+	c.mu.Lock()
+	p := in.peers[region]
+	c.mu.Unlock()
 	mark := p.VerifAppliedMark()
 	spec, _ := parseReq(ev.Req)
-	n := in.n
-	c := n.c
 	c.mu.Lock()
 	defer c.mu.Unlock()
 	if in.dead {
 		return
 	}
 	in.reads[ev.Req] = true
-	c.log(&event{kind: "serve", s: n.id, w: spec.UID, ridx: ev.ReadIndex, mark: mark})
+	c.log(&event{kind: "serve", s: in.n.id, region: region, w: spec.UID, ridx: ev.ReadIndex, mark: mark})
 }
 
 // log appends an event; the caller holds c.mu.
@@ -259,11 +290,11 @@ func (c *cluster) log(e *event) {
 	c.evs = append(c.evs, e)
 }
 
-func (c *cluster) leaderClaims() []*node {
+func (c *cluster) leaderClaims(region uint64) []*node {
 	var out []*node
 	for id := 1; id <= 3; id++ {
 		n := c.nodes[id]
-		if n.up && n.peer.Status().RaftState == myraft.StateLeader {
+		if n.up && n.peer(region).Status().RaftState == myraft.StateLeader {
 			out = append(out, n)
 		}
 	}
@@ -283,27 +314,27 @@ func regionErrKind(resp *pb.RaftCmdResponse) string {
 // call issues ProposeCommand (read=false) or ReadCommand (read=true) on n from
 // a client goroutine and waits until the call has either returned or reached
 // the point where it blocks.
-func (c *cluster) call(n *node, spec cmdSpec, read bool) {
-	st := n.peer.Status()
-	ev := &event{kind: "propose", s: n.id, w: spec.UID, cmd: spec, leader: st.RaftState == myraft.StateLeader, term: st.Term, pobs: "PoOther"}
+func (c *cluster) call(n *node, region uint64, spec cmdSpec, read bool) {
+	p := n.peer(region)
+	pid := peerID(region, n.id)
+	st := p.Status()
+	ev := &event{kind: "propose", s: n.id, region: region, w: spec.UID, cmd: spec, leader: st.RaftState == myraft.StateLeader,
+		term: st.Term, pobs: "PoOther"}
 	if read {
 		ev.kind = "read"
 	}
-	if ev.leader {
-		c.terms[st.Term] = n.id
-	}
-	before := map[uint64]bool{}
+	before := map[uint64]int{}
 	for _, id := range n.st.VerifPendingProposals() {
-		before[id] = true
+		before[id]++
 	}
-	readsBefore := n.peer.VerifReadSeq()
-	matchBefore := st.Progress[n.id].Match
+	readsBefore := p.VerifReadSeq()
+	matchBefore := st.Progress[pid].Match
 	op := &opState{done: make(chan struct{})}
 	c.mu.Lock()
 	c.log(ev)
 	c.ops = append(c.ops, op)
 	c.mu.Unlock()
-	req := buildReq(spec, regionID)
+	req := buildReq(spec, region)
 	var early string
 	in, st0 := n.inc, n.st
 	if read {
@@ -345,6 +376,7 @@ func (c *cluster) call(n *node, spec cmdSpec, read bool) {
 		close(op.done)
 	}()
 	deadline := time.Now().Add(2 * time.Second)
+wait:
 	for {
 		select {
 		case <-op.done:
@@ -358,33 +390,32 @@ func (c *cluster) call(n *node, spec cmdSpec, read bool) {
 		default:
 		}
 		if read {
-			if n.peer.VerifReadSeq() > readsBefore {
+			if p.VerifReadSeq() > readsBefore {
 				ev.pobs = "PoStarted"
-				break
+				break wait
 			}
 		} else {
-			found := false
+			now := map[uint64]int{}
 			for _, id := range n.st.VerifPendingProposals() {
-				if !before[id] {
-					ev.pobs = fmt.Sprintf("(PoRegistered %d)", id)
-					found = true
-				}
+				now[id]++
 			}
-			if found {
-				break
+			for id, k := range now {
+				if k > before[id] {
+					ev.pobs = fmt.Sprintf("(PoRegistered %d)", id)
+					break wait
+				}
 			}
 		}
 		if time.Now().After(deadline) {
 			return
 		}
 		runtime.Gosched()
-		continue
 	}
 	// let the client goroutine hand its entry to raft (the leader's own Match
 	// moves when it appends) and finish its own Ready processing
 	if !read {
 		for t0 := time.Now(); time.Since(t0) < 20*time.Millisecond; {
-			if n.peer.Status().Progress[n.id].Match > matchBefore {
+			if p.Status().Progress[pid].Match > matchBefore {
 				break
 			}
 			select {
@@ -395,12 +426,13 @@ func (c *cluster) call(n *node, spec cmdSpec, read bool) {
 			}
 		}
 	}
-	_ = n.peer.Flush()
+	_ = p.Flush()
 	for i := 0; i < 20; i++ {
 		runtime.Gosched()
 	}
 }
 
+// deliverAt delivers (or, if the link is cut, drops) the i-th queued message.
 func (c *cluster) deliverAt(i int, keep bool) {
 	c.mu.Lock()
 	if i >= len(c.queue) {
@@ -411,10 +443,14 @@ func (c *cluster) deliverAt(i int, keep bool) {
 	if !keep {
 		c.queue = append(c.queue[:i:i], c.queue[i+1:]...)
 	}
-	dropped := c.cut[m.From] || c.cut[m.To]
+	from, to := storeOfPeer(m.From), storeOfPeer(m.To)
+	dropped := from > 3 || to > 3 || to == 0 || c.cut[from] || c.cut[to]
 	c.mu.Unlock()
-	n := c.nodes[m.To]
-	if dropped || n == nil || !n.up {
+	if dropped {
+		return
+	}
+	n := c.nodes[to]
+	if n == nil || !n.up {
 		return
 	}
 	_ = n.st.Step(m)
@@ -432,6 +468,25 @@ func (c *cluster) pump(max int) {
 	}
 }
 
+// pumpRegion delivers only the messages of one region, in order, until none is left.
+func (c *cluster) pumpRegion(region uint64, max int) {
+	for k := 0; k < max; k++ {
+		c.mu.Lock()
+		idx := -1
+		for i, m := range c.queue {
+			if regionOfPeer(m.To) == region {
+				idx = i
+				break
+			}
+		}
+		c.mu.Unlock()
+		if idx < 0 {
+			return
+		}
+		c.deliverAt(idx, false)
+	}
+}
+
 func (c *cluster) restart(n *node) error {
 	n.up = false
 	c.mu.Lock()
@@ -443,7 +498,9 @@ func (c *cluster) restart(n *node) error {
 }
 
 func (n *node) stop() {
-	n.st.StopPeer(n.id)
+	for _, region := range n.c.regions {
+		n.st.StopPeer(peerID(region, n.id))
+	}
 	n.st.Close()
 	if n.inc.wal != nil {
 		_ = n.inc.wal.Close()
@@ -452,10 +509,6 @@ func (n *node) stop() {
 		_ = n.inc.man.Close()
 	}
 }
-
-// peerOf returns the peer of incarnation in (the read observer runs on client
-// goroutines, possibly while the node is being restarted).
-func (n *node) peerOf(in *incarn) *peer.Peer { return in.peer }
 
 func (c *cluster) pendingOps() int {
 	k := 0
@@ -477,15 +530,21 @@ func (c *cluster) finish() []*event {
 	for round := 0; round < 80; round++ {
 		for id := 1; id <= 3; id++ {
 			if c.nodes[id].up {
-				_ = c.nodes[id].peer.Tick()
+				for _, region := range c.regions {
+					_ = c.nodes[id].peer(region).Tick()
+				}
 			}
 		}
 		c.pump(2000)
 		if round > 3 && c.pendingOps() == 0 && c.qlen() == 0 {
 			break
 		}
-		if round%8 == 7 && len(c.leaderClaims()) == 0 {
-			_ = c.nodes[1+round%3].peer.Campaign()
+		if round%8 == 7 {
+			for _, region := range c.regions {
+				if len(c.leaderClaims(region)) == 0 {
+					_ = c.nodes[1+round%3].peer(region).Campaign()
+				}
+			}
 		}
 	}
 	// give returning client goroutines a moment to log their result
@@ -511,32 +570,52 @@ func (c *cluster) finish() []*event {
 type runSpec struct {
 	Seed    int64  `json:"seed"`
 	Steps   int    `json:"steps"`
-	Profile string `json:"profile"` // mixed | reads | f20
+	Profile string `json:"profile"` // mixed | reads | f20 | newleader | tworegions
+	Regions int    `json:"regions,omitempty"`
 }
 
-func (c *cluster) newCmd(rng *rand.Rand, kind string) cmdSpec {
+// newCmd makes a command for a region: with two regions, region r owns the keys 2(r-1), 2(r-1)+1.
+func (c *cluster) newCmd(rng *rand.Rand, region uint64, kind string) cmdSpec {
 	c.nextW++
 	w := c.nextW
-	return cmdSpec{UID: w, Kind: kind, K: uint64(rng.Intn(2)), V: w}
+	k := uint64(rng.Intn(2))
+	if len(c.regions) > 1 {
+		k += 2 * (region - 1)
+	}
+	return cmdSpec{UID: w, Kind: kind, K: k, V: w}
 }
 
 func runOne(spec runSpec, dir string) ([]*event, map[string]int, error) {
 	_ = os.RemoveAll(dir)
-	c, err := newCluster(dir)
+	nregions := spec.Regions
+	if nregions < 1 {
+		nregions = 1
+	}
+	if spec.Profile == "tworegions" {
+		nregions = 2
+	}
+	c, err := newCluster(dir, nregions)
 	if err != nil {
 		return nil, nil, err
 	}
 	rng := rand.New(rand.NewSource(spec.Seed))
-	if spec.Profile == "f20" {
+	switch spec.Profile {
+	case "f20":
 		c.scriptF20()
 		return c.finish(), c.stats, nil
-	}
-	if spec.Profile == "newleader" {
+	case "newleader":
 		c.scriptNewLeaderRead()
 		return c.finish(), c.stats, nil
+	case "tworegions":
+		c.scriptTwoRegions()
+		return c.finish(), c.stats, nil
 	}
-	_ = c.nodes[1+rng.Intn(3)].peer.Campaign()
-	c.pump(200)
+	pickRegion := func() uint64 { return c.regions[rng.Intn(len(c.regions))] }
+	for _, region := range c.regions {
+		// with two regions, prefer different leaders and equal term numbers
+		_ = c.nodes[1+(rng.Intn(3)+int(region))%3].peer(region).Campaign()
+		c.pump(200)
+	}
 	maxOps := 9
 	restarts := 0
 	dbg := os.Getenv("VERIF_CLUSTER_DEBUG") != ""
@@ -562,7 +641,9 @@ func runOne(spec runSpec, dir string) ([]*event, map[string]int, error) {
 				case f < 14:
 					c.stats["dropped"]++
 					c.mu.Lock()
-					c.queue = append(c.queue[:i:i], c.queue[i+1:]...)
+					if i < len(c.queue) {
+						c.queue = append(c.queue[:i:i], c.queue[i+1:]...)
+					}
 					c.mu.Unlock()
 				default:
 					c.deliverAt(i, false)
@@ -572,14 +653,15 @@ func runOne(spec runSpec, dir string) ([]*event, map[string]int, error) {
 			c.pump(1 + rng.Intn(8))
 		case r < 64:
 			if n := c.nodes[1+rng.Intn(3)]; n.up {
-				_ = n.peer.Tick()
+				_ = n.peer(pickRegion()).Tick()
 			}
 		case r < 82:
 			if int(c.nextW) >= maxOps {
 				continue
 			}
+			region := pickRegion()
 			var n *node
-			if ls := c.leaderClaims(); len(ls) > 0 && rng.Intn(10) < 8 {
+			if ls := c.leaderClaims(region); len(ls) > 0 && rng.Intn(10) < 8 {
 				n = ls[rng.Intn(len(ls))]
 			} else {
 				n = c.nodes[1+rng.Intn(3)]
@@ -594,16 +676,16 @@ func runOne(spec runSpec, dir string) ([]*event, map[string]int, error) {
 			}
 			switch {
 			case k < readShare:
-				c.call(n, c.newCmd(rng, "get"), true)
+				c.call(n, region, c.newCmd(rng, region, "get"), true)
 			case k < readShare+12:
-				c.call(n, c.newCmd(rng, "get"), false)
+				c.call(n, region, c.newCmd(rng, region, "get"), false)
 			default:
-				c.call(n, c.newCmd(rng, "put"), false)
+				c.call(n, region, c.newCmd(rng, region, "put"), false)
 			}
 		case r < 87:
 			if n := c.nodes[1+rng.Intn(3)]; n.up {
 				c.stats["campaigns"]++
-				_ = n.peer.Campaign()
+				_ = n.peer(pickRegion()).Campaign()
 			}
 		case r < 92:
 			c.mu.Lock()
@@ -624,9 +706,10 @@ func runOne(spec runSpec, dir string) ([]*event, map[string]int, error) {
 				}
 			}
 		default:
-			if ls := c.leaderClaims(); len(ls) > 0 {
+			region := pickRegion()
+			if ls := c.leaderClaims(region); len(ls) > 0 {
 				c.stats["transfers"]++
-				_ = ls[0].peer.TransferLeader(uint64(1 + rng.Intn(3)))
+				_ = ls[0].peer(region).TransferLeader(peerID(region, uint64(1+rng.Intn(3))))
 			}
 		}
 	}
@@ -640,48 +723,62 @@ func runOne(spec runSpec, dir string) ([]*event, map[string]int, error) {
 // id 1, and when store 1 applied B it answered A's caller with B's result.
 func (c *cluster) scriptF20() {
 	rng := rand.New(rand.NewSource(1))
-	_ = c.nodes[1].peer.Campaign()
+	_ = c.nodes[1].peer(1).Campaign()
 	c.pump(500)
 	c.mu.Lock()
 	c.cut[1] = true
 	c.mu.Unlock()
-	c.call(c.nodes[1], c.newCmd(rng, "put"), false)
-	_ = c.nodes[2].peer.Campaign()
+	c.call(c.nodes[1], 1, c.newCmd(rng, 1, "put"), false)
+	_ = c.nodes[2].peer(1).Campaign()
 	c.pump(500)
-	c.call(c.nodes[2], c.newCmd(rng, "put"), false)
+	c.call(c.nodes[2], 1, c.newCmd(rng, 1, "put"), false)
 	c.pump(500)
 	c.mu.Lock()
 	c.cut = [4]bool{}
 	c.mu.Unlock()
 	for i := 0; i < 4; i++ {
-		_ = c.nodes[2].peer.Tick()
+		_ = c.nodes[2].peer(1).Tick()
 		c.pump(500)
 	}
-	c.call(c.nodes[2], c.newCmd(rng, "get"), true)
+	c.call(c.nodes[2], 1, c.newCmd(rng, 1, "get"), true)
+	c.pump(500)
+}
+
+// scriptTwoRegions: the cross-region half of finding F20. Store 1 leads
+// region 1 and store 2 leads region 2, both in the same term number, so both
+// hand out the same request id. Region 1's messages are held back while a
+// client proposes A there; a client proposes B on region 2, which commits;
+// store 1, a follower of region 2, applies B. With waiters keyed by the id
+// alone it answered A's caller with B's result.
+func (c *cluster) scriptTwoRegions() {
+	rng := rand.New(rand.NewSource(1))
+	_ = c.nodes[1].peer(1).Campaign()
+	c.pumpRegion(1, 500)
+	_ = c.nodes[2].peer(2).Campaign()
+	c.pumpRegion(2, 500)
+	c.call(c.nodes[1], 1, c.newCmd(rng, 1, "put"), false)
+	c.call(c.nodes[2], 2, c.newCmd(rng, 2, "put"), false)
+	for i := 0; i < 3; i++ {
+		c.pumpRegion(2, 500)
+		_ = c.nodes[2].peer(2).Tick()
+	}
+	c.pumpRegion(2, 500)
+	c.pump(1000)
+	c.call(c.nodes[1], 1, c.newCmd(rng, 1, "get"), true)
 	c.pump(500)
 }
 
 // scriptNewLeaderRead: a write is acknowledged by leader 1 while follower 2 has
 // the entry but has not learned that it is committed; 2 is then elected and
-// asked to read before it has committed anything in its own term. The read
-// index and the entries it covers arrive in one Ready: ReadCommand has to
-// wait for them (WaitApplied) or it serves the state before the acknowledged
-// write.
+// asked to read before it has committed anything in its own term.
 func (c *cluster) scriptNewLeaderRead() {
 	rng := rand.New(rand.NewSource(1))
-	_ = c.nodes[1].peer.Campaign()
+	_ = c.nodes[1].peer(1).Campaign()
 	c.pump(500)
-	c.call(c.nodes[1], c.newCmd(rng, "put"), false)
+	put := c.newCmd(rng, 1, "put")
+	c.call(c.nodes[1], 1, put, false)
 	op := c.ops[len(c.ops)-1]
-	if os.Getenv("VERIF_CLUSTER_DEBUG") != "" {
-		fmt.Fprintf(os.Stderr, "after put: q=%d leader1=%v\n", c.qlen(), c.nodes[1].peer.Status().RaftState)
-	}
 	for i := 0; i < 500 && c.qlen() > 0; i++ {
-		if os.Getenv("VERIF_CLUSTER_DEBUG") != "" {
-			c.mu.Lock()
-			fmt.Fprintf(os.Stderr, "deliver %v %d->%d\n", c.queue[0].Type, c.queue[0].From, c.queue[0].To)
-			c.mu.Unlock()
-		}
 		c.deliverAt(0, false)
 		runtime.Gosched()
 		select {
@@ -694,16 +791,16 @@ func (c *cluster) scriptNewLeaderRead() {
 	c.queue = nil // store 2 never hears about the commit from store 1
 	c.cut[1] = true
 	c.mu.Unlock()
-	_ = c.nodes[2].peer.Campaign()
-	for i := 0; i < 500 && c.qlen() > 0 && c.nodes[2].peer.Status().RaftState != myraft.StateLeader; i++ {
+	_ = c.nodes[2].peer(1).Campaign()
+	for i := 0; i < 500 && c.qlen() > 0 && c.nodes[2].peer(1).Status().RaftState != myraft.StateLeader; i++ {
 		c.deliverAt(0, false)
 	}
-	k := c.newCmd(rng, "get")
-	k.K = c.evs[0].cmd.K
-	c.call(c.nodes[2], k, true)
+	k := c.newCmd(rng, 1, "get")
+	k.K = put.K
+	c.call(c.nodes[2], 1, k, true)
 	c.pump(500)
 	for i := 0; i < 3; i++ {
-		_ = c.nodes[2].peer.Tick()
+		_ = c.nodes[2].peer(1).Tick()
 		c.pump(500)
 	}
 }
